@@ -88,7 +88,7 @@ def filt_perm(repo_src, dst):
                      {0: 'LOOP_ROWS', 1: 'LOOP_ROWS', 2: 'LOOP_ROWS'},
                      extra_rules=[(r'\br \* ncols_all\b', 'PMUL(r, ncols_all)'), (r'\bi \* ncols\b', 'PMUL(i, ncols)'), (r'\br \* ncols\b', 'PMUL(r, ncols)'),
                                   (r'\(size / extension\) \* ncols_all', 'PMUL(size / extension, ncols_all)'), (r'GElement tmp\[ncols\];', 'GElement tmp[1]; /* M2: local row buffer, abstract */')])
-    body, n = re.subn(r'(LOOP_ROWS\s*\{)', r'\1 g_i = i; g_sub = 0; /* M2-ghost */', body)
+    body, n = re.subn(r'(LOOP_ROWS\s*\{)', r'\1 g_i = i; g_sub = 0; VF_ROW_AXIOM(i); /* M2-ghost */', body)
     if n != 3 or body.count('PMUL(') < 6:
         raise extract.ExtractError('M2: reversePermutation: expected 3 row loops and the row-offset products (found %d loops, %d products)' % (n, body.count('PMUL(')))
     f.files = {'gen_perm_br.c': txt, 'gen_perm.c': body}
@@ -129,6 +129,8 @@ F3_UNIT = Unit('reversePermutation_inplace_ext', 'perm_f3', 'NTT_Goldilocks_reve
 if os.environ.get('VF_WITH_F3', '1') == '1':
     UNITS.append(F3_UNIT)
 TRUSTED_BASE = ['M2 C-ification + outlining of the batch loop (rule checks the cut statement exists and the scheduling variables are still present)',
+                'AXIOM row-offsets (reversePermutation): r*ncols_all + offset_cols < q*ncols_all <=> r < q, assumed per row for the uninterpreted row-offset products',
+                'butterfly-group unit: assumed contracts of the scalar add / sub / mul (C01); the positions ki, ji, j are re-stated from the source, not derived from a DFT specification',
                 'the DFT equation itself is NOT decided by this check (see MANIFEST level_note)', 'CBMC, cadical']
 ASSUMPTIONS = ['object domain s <= 32, size = 2^domainPow with domainPow <= min(s, 30)']
 EXPLANATION = 'Schedule contract for all (s, domainPow, nphase, inverse, extend, dst NULL or not): scalar skeleton, complete by unwinding to the operand width.'
